@@ -343,6 +343,19 @@ impl ProcfsHandle {
         let subpath = subpath.as_ref();
         let mut oflags = oflags.into();
 
+        // Creation flags make no sense inside procfs. The resolver refuses
+        // them for regular lookups, but the final component of a magic-link
+        // is opened directly below, so they have to be refused up front.
+        if oflags.intersects(OpenFlags::O_CREAT | OpenFlags::O_EXCL)
+            || oflags.contains(OpenFlags::O_TMPFILE)
+        {
+            Err(ErrorImpl::InvalidArgument {
+                name: "oflags".into(),
+                description: "open flags for procfs cannot contain O_CREAT, O_EXCL or O_TMPFILE"
+                    .into(),
+            })?
+        }
+
         // Drop any trailing /-es.
         let (subpath, trailing_slash) = utils::path_strip_trailing_slash(subpath);
         if trailing_slash {
